@@ -200,10 +200,12 @@ TEXT = {
                  "`unsafe` changes no result (unsafe_same_result). Correspondence: all broad streams in the "
                  "`unsafe` release build and in dev builds with overflow checks/debug assertions; lying readers in "
                  "child processes.",
-        "note": COMMON_NOTE + " NOT covered: UB inside compiled unsafe blocks / LLVM / hex-simd (no sanitizer in "
-                "the quick tier).",
+        "note": COMMON_NOTE + " UB inside compiled unsafe blocks / LLVM / hex-simd is outside the model: the thorough "
+                "tier runs the probe's `mini` stream under Miri in four configurations (supporting evidence, "
+                "a sample of operations, not a proof); the quick tier has no sanitizer.",
         "technique": "Lean 4 proof of totality and of every extracted invariant!() site + unsafe/dev-build "
-                     "differential replay with child-process fault observation",
+                     "differential replay with child-process fault observation and crash localisation "
+                     "(+ Miri on a small operation stream in the thorough tier)",
     },
     "C18": {
         "level": "Proof over the effect graph extracted from the current source (224 function nodes, over-approximate "
